@@ -9,6 +9,7 @@ import KyupyVerif.Model.WaveCirc
 import KyupyVerif.Model.Capture
 import KyupyVerif.Model.MapCert
 import KyupyVerif.Proofs.Solve
+import KyupyVerif.Proofs.GenOpsWO
 import KyupyVerif.Gen.Tables
 import KyupyVerif.Drv.Registry
 /-! Line protocol driver: one request per line on stdin, one answer per line on stdout.
@@ -231,6 +232,8 @@ def step (st : DState) (line : String) : DState × String :=
                            caps := (parseNats capsS).toArray, cLen := clenS.toNat!, capsMin := capsMin.toNat! }
         (st, match p.check with | none => "ok" | some e => "FAIL " ++ e)
       | _ => (st, "bad")
+  | ["netcert", order] =>
+      (st, s!"wf={st.net.wfB} order={orderOKB st.net (parseNats order)}")
   | ["wellordered", opsS] =>
       let ops := (opsS.splitOn "/").filter (· ≠ "") |>.map WaveSimD.parseOp
       (st, if KV.Sig.wellOrderedB ops then "ok" else "FAIL")
